@@ -156,7 +156,15 @@ class Ctx:
                         f = repo.modules[fm[0]].functions[fm[1]]
                         drop = 1
                 if f is not None and not f.args.vararg and not f.args.posonlyargs:
-                    out = [a.arg for a in f.args.args][drop:]
+                    names = [a.arg for a in f.args.args]
+                    dfl = [None] * (len(names) - len(f.args.defaults)) + list(f.args.defaults)
+                    dterms = []
+                    for d_ in dfl:
+                        try:
+                            dterms.append(None if d_ is None else T.from_py(ast.literal_eval(d_)))
+                        except Exception:
+                            dterms.append(None)
+                    out = T.SigInfo(names[drop:], dterms[drop:])
             cache[name] = out
             return out
         return sig
@@ -165,6 +173,14 @@ class Ctx:
         self._last_rel = rel
         pe = T.PE(resolve_global=self.resolver(rel), **kw)
         pe.sig_of = self.sig_resolver(rel)
+        repo = self.repo
+
+        def ext_of(name, rel=rel):
+            r = repo.resolve_name(rel, name)
+            if r and isinstance(r[0], str) and r[0].startswith('<ext:'):
+                return (r[0][5:-1], r[1])
+            return None
+        pe.ext_of = ext_of
         return pe
 
     def summ(self, rel, qual, args=None, kwargs=None, self_term=None, **kw):
